@@ -200,8 +200,9 @@ def parseCfg (toks : List String) : Role × Config × Option Bytes :=
 def runOp (w : World) (body : List String) (masks : List Mask) (ev : Events) : World × List String :=
   let w0 : World := { w with
     mu := masks, muExhausted := false,
-    t := { w.t with rd := ev.rd, wr := ev.wr, fl := ev.fl, log := [], exhausted := false } }
-  let before := w0.t.accepted.length
+    t := { w.t with rd := ev.rd, wr := ev.wr, fl := ev.fl, log := [], exhausted := false,
+                      accepted := [], flushedUpTo := 0 } }
+  let before := 0
   let (w1, res) : World × String :=
     match body with
     | "read" :: _ => let (w, r) := w0.read; (w, showResMsg r)
@@ -223,6 +224,113 @@ def runOp (w : World) (body : List String) (masks : List Mask) (ev : Events) : W
   -- keep the accepted history short: only its length matters between ops
   (w1, [s!"io {io}", s!"res {res}", s!"wire {wire}",
         s!"can r={b01 w1.canRead} w={b01 w1.canWrite} mu={used}{muNote}"])
+
+
+/-! ### pure families -/
+
+def showCloseCodeDebug : CloseCode → String
+  | .normal => "Normal" | .away => "Away" | .protocol => "Protocol" | .unsupported => "Unsupported"
+  | .status => "Status" | .abnormal => "Abnormal" | .invalid => "Invalid" | .policy => "Policy"
+  | .size => "Size" | .extension => "Extension" | .error => "Error" | .restart => "Restart"
+  | .again => "Again" | .tls => "Tls"
+  | .reserved c => s!"Reserved({c})" | .iana c => s!"Iana({c})"
+  | .library c => s!"Library({c})" | .bad c => s!"Bad({c})"
+
+def showOpCodeDebug : OpCode → String
+  | .data .«continue» => "Data(Continue)"
+  | .data .text => "Data(Text)"
+  | .data .binary => "Data(Binary)"
+  | .data (.reserved i) => s!"Data(Reserved({i}))"
+  | .control .close => "Control(Close)"
+  | .control .ping => "Control(Ping)"
+  | .control .pong => "Control(Pong)"
+  | .control (.reserved i) => s!"Control(Reserved({i}))"
+
+def parseHeaderToks (bits opc mask : String) : Option Header :=
+  match bits.toList, opCodeOfU8 (opc.toNat?.getD 255) with
+  | [f, r1, r2, r3], some op =>
+    some { fin := f == '1', rsv1 := r1 == '1', rsv2 := r2 == '1', rsv3 := r3 == '1',
+           opcode := op, mask := if mask == "-" then none else some (parseMask mask) }
+  | _, _ => none
+
+def showHeader (h : Header) : String :=
+  s!"{b01 h.fin}{b01 h.rsv1}{b01 h.rsv2}{b01 h.rsv3} {opCodeToU8 h.opcode} {showMaskOpt h.mask}"
+
+def showOptNat : Option Nat → String
+  | some n => toString n
+  | none => "none"
+
+def pureEval (toks : List String) : Option String :=
+  match toks with
+  | ["closecode", n] =>
+    let n := n.toNat?.getD 0
+    let c := closeCodeOfU16 n
+    let back := closeCodeToU16 c
+    some s!"out {showCloseCodeDebug c} {back} {b01 (closeCodeIsAllowed c)} {b01 (closeCodeOfU16 back == c)}"
+  | ["opcode", n] =>
+    match opCodeOfU8 (n.toNat?.getD 0) with
+    | some op => some s!"out {showOpCodeDebug op} {opCodeToU8 op}"
+    | none => some "out panic"
+  | ["hparse", h] =>
+    match Header.parse (unhex h) with
+    | .header hd len used => some s!"out hdr {showHeader hd} {len} {used}"
+    | .incomplete => some "out incomplete 0"
+    | .error e => some s!"out err {showErr e}"
+    | .panic _ => some "out panic"
+  | ["hformat", bits, opc, mask, len] =>
+    match parseHeaderToks bits opc mask with
+    | none => some "out badheader"
+    | some hd =>
+      let len := len.toNat?.getD 0
+      some s!"out {hex (hd.format len)} {hd.len len}"
+  | ["fformat", b1, o1, m1, p1, b2, o2, m2, p2] =>
+    match parseHeaderToks b1 o1 m1, parseHeaderToks b2 o2 m2 with
+    | some h1, some h2 =>
+      let f1 : Frame := { header := h1, payload := unhex p1 }
+      let f2 : Frame := { header := h2, payload := unhex p2 }
+      let wire := f2.formatIntoBuf (f1.formatIntoBuf [])
+      some s!"out {hex f1.format} {f1.len} {hex f2.format} {f2.len} {hex wire} 11"
+    | _, _ => some "out badheader"
+  | ["mask", key, _align, h] =>
+    some s!"out {hex (applyMask (parseMask key) (unhex h))} canary=ok"
+  | ["utf8", h] =>
+    let b := unhex h
+    let stdS := match utf8Validate b with
+      | .ok => "ok"
+      | .err v el => s!"err {v} {showOptNat el}"
+    let dec := match utf8Decode b with
+      | .ok => "ok"
+      | .invalid v k => s!"invalid {v} {k}"
+      | .incomplete v suf => s!"incomplete {v} {hex suf}"
+    some s!"out std {stdS} dec {dec}"
+  | ["utf8c", buf, inp] =>
+    match utf8TryComplete (unhex buf) (unhex inp) with
+    | .still b => some s!"out still {hex b}"
+    | .done true bytes consumed => some s!"out done ok {hex bytes} {consumed}"
+    | .done false bytes consumed => some s!"out done err {hex bytes} {consumed}"
+    | .panic => some "out panic"
+  | _ => none
+
+def pureTags : List String :=
+  ["closecode", "opcode", "hparse", "hformat", "fformat", "mask", "utf8", "utf8c"]
+
+
+/-! ### monitors on the implementation's pure outputs -/
+
+def allowedSpecB (c : Nat) : Bool :=
+  (1000 ≤ c && c ≤ 1003) || (1007 ≤ c && c ≤ 1013) || (3000 ≤ c && c ≤ 4999)
+
+/-- property predicates evaluated on what the real crate printed for a pure line -/
+def monPure (inp : List String) (implOut : List String) : List String :=
+  match inp, implOut with
+  | ["closecode", n], ["out", _variant, back, allowed, again] =>
+    let n := n.toNat?.getD 0
+    let okBack := back.toNat? == some n
+    let okAgain := again == "1"
+    let okAllowed := (allowed == "1") == allowedSpecB n
+    if okBack && okAgain && okAllowed then ["mon C20 ok"]
+    else [s!"mon C20 FAIL closecode-{if !okBack then "u16-roundtrip" else if !okAgain then "value-roundtrip" else "allowed"} code={n}"]
+  | _, _ => []
 
 structure St where
   role : Role := .server
@@ -287,20 +395,35 @@ partial def runCase (lines : Array String) : Array String := Id.run do
 
 end Drv
 
-partial def loop (h : IO.FS.Stream) (out : IO.FS.Stream) (cur : Array String) : IO Unit := do
+partial def loop (h : IO.FS.Stream) (out : IO.FS.Stream) (cur : Array String)
+    (lastPure : Option (List String)) : IO Unit := do
   let line ← h.getLine
   if line.isEmpty then
     if !cur.isEmpty then
       for l in Drv.runCase cur do out.putStrLn l
     return ()
   let l := line.trimAscii.toString
-  if l == "end" then
+  let toks := Drv.words l
+  if cur.isEmpty && (match toks with | t :: _ => Drv.pureTags.contains t | [] => false) then
+    out.putStrLn l
+    match Drv.pureEval toks with
+    | some o => out.putStrLn o
+    | none => out.putStrLn "out bad-line"
+    loop h out #[] (some toks)
+  else if cur.isEmpty && (match toks with | t :: _ => t == "out" | [] => false) then
+    match lastPure with
+    | some inp => for m in Drv.monPure inp toks do out.putStrLn m
+    | none => pure ()
+    loop h out #[] none
+  else if cur.isEmpty && toks.isEmpty then
+    loop h out #[] lastPure
+  else if l == "end" then
     for o in Drv.runCase (cur.push l) do out.putStrLn o
-    loop h out #[]
+    loop h out #[] none
   else
-    loop h out (cur.push l)
+    loop h out (cur.push l) none
 
 def main : IO Unit := do
   let stdin ← IO.getStdin
   let stdout ← IO.getStdout
-  loop stdin stdout #[]
+  loop stdin stdout #[] none
